@@ -231,6 +231,43 @@ def call_real(cfg, eps: List[dict], order: List[int], nodes: Tuple[int, ...], sc
     return t2_semantic(ctx, state, text, t1)
 
 
+def call_seq(steps, eps: List[dict], order: List[int], scap, agent: str, text: str, store):
+    """several t2_semantic calls on ONE engine state (one memory index, process-global stage caches not reset in
+    between): steps = [(cfg, now_iso)]"""
+    from .. import engine as E
+    from clematis.engine.stages.t2.core import t2_semantic
+    from clematis.memory.index import InMemoryIndex
+    idx = InMemoryIndex()
+    for j in order:
+        idx.add(dict(eps[j]))
+    state = {"store": store, "active_graphs": ["g:surface"], "mem_index": idx, "version_etag": "0", "_boot_loaded": True}
+    out = []
+    E.reset_global_caches()
+    try:
+        for cfg, now in steps:
+            extra: Dict[str, Any] = {}
+            if scap is not None:
+                extra["slice_budgets"] = {"t2_k": scap}
+            ctx = E.mk_ctx(cfg, agent, now=now, **extra)
+            t1 = type("T1", (), {"graph_deltas": [], "metrics": {}})()
+            out.append(t2_semantic(ctx, state, text, t1))
+    finally:
+        E.reset_global_caches()
+    return out
+
+
+def with_t2(cfg, **over):
+    """copy of a real configuration with t2 / perf settings replaced"""
+    from .. import engine as E
+    c = E.AttrDict(cfg)
+    for k, v in over.items():
+        c[k] = E.to_attr(E.deep_merge(dict(cfg.get(k) or {}), v))
+    return c
+
+
+LATER_ISO = "2025-09-01T18:00:00Z"       # the same calendar day as NOW, 18 hours on: cut-offs and recency have moved
+
+
 # ---- clause evaluation on a real result -------------------------------------------------------------
 def residual_clauses(res, texts: Dict[str, str], node_labels: Dict[str, str], rcap: int, scap, fails, where: str, counts):
     """the residual / use-cap clauses evaluated directly on a real T2Result (any layer configuration)"""
@@ -536,6 +573,30 @@ def random_case(args) -> Tuple[List[Tuple[str, str, str]], Dict[str, int]]:
             break
         if comb[p][1] == comb[p + 1][1]:
             counts["RankingLaw.identical_input_ties"] += 1
+    # the same retrieval with a warm stage cache (asked earlier the same day) and through the sharded parallel path
+    # is the same retrieval: scope, tier rules and ranking hold on every path that serves t2_semantic
+    def proj(rs):
+        return [(str(x.id), round(float(x.score), 12)) for x in rs.retrieved]
+    base_cfg = make_cfg_real("plain", cf)
+    try:
+        cached = with_t2(base_cfg, t2={"cache": {"enabled": True, "max_entries": 64, "ttl_s": 3600}})
+        warm = call_seq([(cached, NOW_ISO), (cached, LATER_ISO)], eps, order, scap, agent, text, store)[1]
+        cold = call_seq([(base_cfg, LATER_ISO)], eps, order, scap, agent, text, store)[0]
+        counts["WarmCacheSameRetrieval"] += 1
+        if proj(warm) != proj(cold):
+            k = next((j for j, (x, y) in enumerate(zip(proj(warm), proj(cold))) if x != y), min(len(proj(warm)), len(proj(cold))))
+            fails.append(("TierRules", "warm-cache", f"{where}: asked at {LATER_ISO} after the same question at {NOW_ISO} (stage cache on) returns "
+                                                     f"{proj(warm)[k:k + 3]} where a fresh retrieval returns {proj(cold)[k:k + 3]} (position {k}; recent_days={cf['exact_recent_days']})"))
+        par_cfg = with_t2(base_cfg, perf={"enabled": True, "parallel": {"enabled": True, "t2": True, "max_workers": 3}})
+        par = call_seq([(par_cfg, NOW_ISO)], eps, order, scap, agent, text, store)[0]
+        counts["ParallelPathSameRetrieval"] += 1
+        if proj(par) != proj(res):
+            k = next((j for j, (x, y) in enumerate(zip(proj(par), proj(res))) if x != y), min(len(proj(par)), len(proj(res))))
+            fails.append(("TierRules" if cf["owner_scope"] == "any" else "OwnerScope", "parallel-path",
+                          f"{where}: sharded parallel path (3 workers, scope {cf['owner_scope']}, tiers {cf['tiers']}, top-m {cf['clusters_top_m']}) returns "
+                          f"{proj(par)[k:k + 3]} where the sequential path returns {proj(res)[k:k + 3]} (position {k})"))
+    except Exception as ex:  # noqa: BLE001
+        fails.append(("TierRules", "raised:paths", f"{where}: warm / parallel retrieval raised {type(ex).__name__}: {ex}"))
     # rerank layers on the same memory
     hyb, qual, _ = layer_params(r)
     edges = gel_edges(r, ids[:6] + [e["id"] for e in eps[:3]])
